@@ -365,8 +365,9 @@ def direct_checks(ctx, d, case0, name, amb_members, real):
         case = dict(case0, node=i)
         fol, prc = real[(i, 17, 0)], real[(i, 18, 0)]
         if fol[0] == 0 and prc[0] == 0:
+            # iterate_preceding is independent of the ambient filter (all nodes before), iterate_following applies it
             got = list(reversed(prc[1:])) + [i] + fol[1:]
-            want = [j for j in range(n_nodes) if j in vis or j == i]
+            want = [j for j in range(n_nodes) if j <= i or j in vis]
             if got != want:
                 ctx.fail("preceding + node + following do not partition the tree in document order",
                          dict(case, routine="partition", got=got, want=want), classify)
@@ -481,7 +482,7 @@ def run(ctx, args):
         return ctx.finish("replay of " + args.replay, replay_open=replay_open)
     quick = ctx.tier == "quick"
     cases = [{"xml": x, "plan": [], "seed": i} for i, x in enumerate(DOCS)]
-    for i in range(40 if quick else 900):
+    for i in range(26 if quick else 900):
         cases.append({"xml": ctx.rng.choice(DOCS), "plan": gen_plan(ctx.rng, ctx.rng.randint(1, 8)),
                       "seed": ctx.rng.randint(0, 10 ** 6)})
     step = 60
